@@ -19,7 +19,8 @@ RULE = ("grammar-directed generation to depth 6 (sums, products, powers with ^ a
         "two-argument functions, with and without whitespace and parentheses), in item and attribute element "
         "modes; each string is evaluated immediately and deferred before and after >= 3 rounds of variable / element "
         "changes made through the manager. Non-trivial = the string contains a variable or element access and "
-        "evaluates to a number at least once; distinct = the string itself.")
+        "evaluates to a number at least once; distinct = the string itself. Element changes include replacing a whole "
+        "element by a new object through the manager.")
 ASSUMPTIONS = [
     "only numbers are compared: when immediate evaluation raises ZeroDivisionError the deferred value is the one Python computes with NaN substituted at the dividing node (checked on parenthesised strings through the mirror term); any other exception must stop the deferred form too; exception types are not compared because constant sub-terms fold at parse time",
     "all variable / element values are floats (as in MAD-X), so that the sign of a zero can be compared strictly: mixed int/float arithmetic is where Cython 3.3's generated fast paths lose the sign of zero in the compiled build (toolchain artefact, DESIGN 8.2)",
@@ -217,9 +218,17 @@ def run_shard(spec):
         return a ** b
 
     def change_something():
-        if rng.random() < 0.7:
+        k = rng.random()
+        if k < 0.6:
             v = rng.choice(VARS)
             vref[v] = rng.choice(VALUES)            # through the manager
+        elif k < 0.75:
+            # the whole element is replaced by a NEW object (through the manager): expressions built earlier must
+            # read the element that is there now
+            e = rng.choice(["el", "q.1"])
+            attrs = {a: rng.choice(VALUES) for (ee, a) in ELEMS if ee == e}
+            eref[e] = Elem(**attrs) if get == "attr" else dict(attrs)
+            counters["whole_elements_replaced"] = counters.get("whole_elements_replaced", 0) + 1
         else:
             e, a = rng.choice(ELEMS)
             val = rng.choice(VALUES)
